@@ -377,7 +377,9 @@ pub(crate) fn blend<S: Sample>(
         }
 
         let mut blend_params = if clone_empty {
-            let new_alpha = alpha_idx.map(new_alpha_subgrid);
+            let new_alpha = alpha_idx
+                .filter(|_| blend_width > 0 && blend_height > 0)
+                .map(new_alpha_subgrid);
             let premultiplied =
                 alpha_idx.and_then(|idx| image_header.metadata.ec_info[idx].alpha_associated());
             BlendParams::from_blending_info(
@@ -389,7 +391,9 @@ pub(crate) fn blend<S: Sample>(
                 premultiplied,
             )
         } else {
-            let new_alpha = alpha_idx.map(new_alpha_subgrid);
+            let new_alpha = alpha_idx
+                .filter(|_| blend_width > 0 && blend_height > 0)
+                .map(new_alpha_subgrid);
             let premultiplied =
                 alpha_idx.and_then(|idx| image_header.metadata.ec_info[idx].alpha_associated());
             BlendParams::from_blending_info(
@@ -421,15 +425,18 @@ pub(crate) fn blend<S: Sample>(
         blend_params.width = blend_width;
         blend_params.height = blend_height;
 
-        let new_grid = new_grid.buffer()[idx]
-            .as_float()
-            .unwrap()
-            .as_subgrid()
-            .subgrid(
-                new_topleft.0..(new_topleft.0 + blend_width),
-                new_topleft.1..(new_topleft.1 + blend_height),
-            );
-        blend_single(target_subgrid, new_grid, &blend_params);
+        // Nothing to blend if the frame lies outside of the requested area.
+        if blend_width > 0 && blend_height > 0 {
+            let new_grid = new_grid.buffer()[idx]
+                .as_float()
+                .unwrap()
+                .as_subgrid()
+                .subgrid(
+                    new_topleft.0..(new_topleft.0 + blend_width),
+                    new_topleft.1..(new_topleft.1 + blend_height),
+                );
+            blend_single(target_subgrid, new_grid, &blend_params);
+        }
         output_grid.append_channel(target_grid, target_region);
     }
 
